@@ -1,6 +1,15 @@
 #!/bin/bash
 # usage: SCRATCH=<scratch checkout of productmd> tools/run_benign.sh   (needs /tmp/pmd_rel.json: file -> anchored properties, see docs/benign_refactors.md)
 cd "$(dirname "$0")/.."   # run from a checkout of /verif; SCRATCH = a scratch checkout of the library (never /repo)
+python3 - <<'PY'
+import json
+rel={}
+for l in open('properties.jsonl'):
+    p=json.loads(l)
+    for f in p['anchors']['files']:
+        rel.setdefault(f.split('/')[-1],[]).append(p['id'])
+open('/tmp/pmd_rel.json','w').write(json.dumps(rel))
+PY
 for d in $(dirname $0)/../benign/*/; do
   n=$(basename $d)
   git -C ${SCRATCH:-/tmp/seedrun} checkout -q -- .
